@@ -149,6 +149,7 @@ def run(ctx):
         if i < 3:
             cov.sample({"family": name, "spec": fam.spec, "calls": calls})
     label_dtypes(ctx)
+    topo_emptied_then_partial(ctx)
     e2e.base_histories(ctx, "C05", ctx.scale(150, 3000), ctx.scale(20, 80), fields=("labels", "cnt"))
 
 
@@ -196,3 +197,29 @@ def label_dtypes(ctx):
             cov.case(("ydtype", spec, rep["X"], rep["y"], kind, first, parts), len(m.W) >= 2)
         except Exception as e:
             cov.hit(f"targets-dtype:{kind}:raised:{exc_enum(e)}")
+
+
+def topo_emptied_then_partial(ctx):
+    """a TopoART whose fit ended with a pruning round that removed every category (W == [], labels all -1) is still a
+    trained model: partial_fit appends to labels_, one entry per sample presented since the fit"""
+    cov = ctx.cov
+    for i in range(ctx.scale(20, 300)):
+        r = gen.rng_for(ctx.seed, "C05-topo-emptied", i)
+        n = r.randint(2, 8)
+        fam, rows = families.build(r, "TopoART", n)
+        n = len(rows)
+        fam.spec["tau"] = r.choice([n, n, n] + [t for t in range(2, n + 1) if n % t == 0])   # the last sample of fit triggers a round
+        fam.spec["phi"] = fam.spec["tau"]              # phi <= tau is required; with >= 2 categories nobody reaches it
+        desc = dict(fam.describe(), rows=rows.tolist())
+        try:
+            est = fam.make()
+            fam.fit(est, rows)
+            emptied = len(est.W) == 0
+            check_state(ctx, fam, est, n, desc, "after fit ending in a pruning round")
+            k = r.randint(1, n)
+            fam.pfit(est, rows.sl(0, k))
+            check_state(ctx, fam, est, n + k, dict(desc, then_partial_fit_rows=k), f"after fit (model emptied: {emptied}) then partial_fit rows 0:{k}")
+            cov.hit("topo:emptied-then-partial_fit" if emptied else "topo:not-emptied-then-partial_fit")
+        except Exception as e:
+            cov.hit(f"topo-emptied:raised:{exc_enum(e)}")
+        cov.case(("topo-emptied", fam.spec, desc["rows"]), True)
